@@ -197,7 +197,20 @@ func parseAgree(r []string) (agree bool, what string) {
 	}
 	if ok != (err == nil) {
 		if !ok && len(r) >= 6 && strings.EqualFold(r[0], "match") {
-			return false, "match-destination-type-not-validated"
+			// which part of the MATCH format is not enforced: the artifact type word, or a keyword / the length
+			for i, t := range r {
+				if i > 1 && i%2 == 1 {
+					for _, typ := range []string{"materials", "products"} {
+						alt := append([]string{}, r...)
+						alt[i] = typ
+						if _, good := ref.ParseRule(alt); good {
+							return false, "match-destination-type-not-validated"
+						}
+					}
+				}
+				_ = t
+			}
+			return false, "malformed-match-accepted"
 		}
 		return false, fmt.Sprintf("grammar-ref-ok=%v-impl-ok=%v", ok, err == nil)
 	}
@@ -260,6 +273,82 @@ func judge(cs *Case) (obs string, sig string, class string) {
 	return obs, "C03|verdict|" + dir + "|side=" + cs.Side + "|rules=" + ref.RuleTypes(cs.Rules), class
 }
 
+var vocab = []string{"MATCH", "ALLOW", "IN", "WITH", "FROM", "PRODUCTS", "MATERIALS", "x", "match", "In", ""}
+
+var formats = [][]string{
+	{"ALLOW", "x"}, {"REQUIRE", "x"}, {"DISALLOW", "x"}, {"CREATE", "x"}, {"DELETE", "x"}, {"MODIFY", "x"},
+	{"MATCH", "x", "WITH", "PRODUCTS", "FROM", "s"},
+	{"MATCH", "x", "IN", "p", "WITH", "MATERIALS", "FROM", "s"},
+	{"MATCH", "x", "WITH", "PRODUCTS", "IN", "q", "FROM", "s"},
+	{"MATCH", "x", "IN", "p", "WITH", "MATERIALS", "IN", "q", "FROM", "s"},
+}
+
+func grammarSweep(c *mcx.Ctx) {
+	var n int64
+	check := func(r []string, kind string) {
+		n++
+		if !c.Mine(n) {
+			return
+		}
+		c.Case(true)
+		c.Impl(1)
+		ok, what := parseAgree(r)
+		switch {
+		case !ok:
+			cs := &Case{Rules: [][]string{r}, Side: "materials", Kind: "step"}
+			c.Violation("C03|parse|"+what, fmt.Sprintf("UnpackRule(%q) disagrees with the rule grammar: %s (%s, %d tokens)", r, what, kind, len(r)), cs, "grammar:"+what)
+			c.Outcome("grammar-disagree")
+		default:
+			if _, good := ref.ParseRule(r); good {
+				c.Outcome("grammar-wellformed")
+			} else {
+				c.Outcome("grammar-malformed-refused")
+			}
+		}
+	}
+	maxLen := 5
+	if c.Thorough() {
+		maxLen = 6
+	}
+	var rec func(prefix []string)
+	rec = func(prefix []string) {
+		check(append([]string{}, prefix...), "token-sequence")
+		if len(prefix) == maxLen {
+			return
+		}
+		for _, t := range vocab[:8] {
+			rec(append(prefix, t))
+		}
+	}
+	rec(nil)
+	for _, f := range formats {
+		for i := range f {
+			for _, t := range vocab {
+				if t != f[i] {
+					r := append([]string{}, f...)
+					r[i] = t
+					check(r, "token-replaced")
+				}
+			}
+			check(append(append([]string{}, f[:i]...), f[i+1:]...), "token-dropped")
+			if i+1 < len(f) {
+				r := append([]string{}, f...)
+				r[i], r[i+1] = r[i+1], r[i]
+				check(r, "tokens-swapped")
+			}
+		}
+		for i := 0; i <= len(f); i++ {
+			for _, t := range vocab {
+				r := append(append(append([]string{}, f[:i]...), t), f[i:]...)
+				check(r, "token-inserted")
+			}
+		}
+	}
+	if c.Shard == 0 {
+		c.Count("grammar_sweep_rules", n)
+	}
+}
+
 func describe(cs *Case) string {
 	b, _ := json.Marshal(cs)
 	return string(b)
@@ -293,6 +382,9 @@ func run(c *mcx.Ctx) {
 			}
 		}
 	}
+	// grammar, exhaustively: every token sequence up to a length over the rule vocabulary, and every
+	// single-point alteration (token replaced / dropped / inserted, neighbours swapped) of each rule format
+	grammarSweep(c)
 	// programs: all lists of length 0..2 over the full alphabet (+ length 3 over the sub-alphabet in thorough)
 	var lists [][][]string
 	lists = append(lists, [][]string{})
@@ -504,7 +596,8 @@ func init() {
 		ID: "C03", Run: run, Replay: replay,
 		Rule: "full product: every artifact configuration (materials x products x referenced-step artifacts, each path absent/h1/h2) of the path universe x every rule list " +
 			"(program) of length 0..2 over the rule alphabet (thorough: + length 3 over a 20-rule sub-alphabet, + two-algorithm hash objects, + un-clean path spellings) x {materials, products} side; plus both rule lists of one item at once (materials list <= 1 x products list <= 2 over 13 rules and the reverse) with a sha512-only hash value in the universe; " +
-			"one case = one VerifyArtifacts call, distinct by construction; non-trivial = non-empty rule list, at least one artifact, and the reference decides the case (not don't-care). " +
+			"plus the rule grammar by itself (UnpackRule against ref.ParseRule): every token sequence of length <= 5 (thorough 6) over {MATCH, ALLOW, IN, WITH, FROM, PRODUCTS, MATERIALS, x} and every single-point alteration (token replaced by each of 11 vocabulary words, dropped, inserted at every position, neighbours swapped) of the ten rule formats; " +
+			"one case = one VerifyArtifacts (or UnpackRule) call, distinct by construction; non-trivial = non-empty rule list, at least one artifact, and the reference decides the case (not don't-care). " +
 			"states = artifact configurations, transitions = rules applied. In quick the item is a Step or an Inspection alternately ((config+list) parity); thorough runs both.",
 		Assumptions: []string{
 			"ref.Rules/ref.ParseRule are written from the specification's queue algorithm and the property statement; ref.Glob decides pattern matching",
